@@ -133,7 +133,10 @@ func (x *exec) open(create bool) bool {
 // the map is sized from the file), and all those pages are on the free list,
 // so later writers allocate from the free list instead of growing the map.
 // The generator keeps the live data below ~64 KiB, and the executor declines
-// to hold a read transaction when the file has grown past 3/4 MiB.
+// to hold a read transaction when fewer than 96 pages are left between the
+// file's high-water mark and its end (roomToWrite). Before holding it, it
+// also checks without blocking that read transactions really are read-only
+// (readTxIsReadOnly): a writable "read" transaction would block the writer.
 func (x *exec) pregrow(kb int64) bool {
 	name := []byte("\x00verif-pregrow")
 	err := walletdb.Update(x.db, func(tx walletdb.ReadWriteTx) error {
@@ -507,6 +510,7 @@ func (x *exec) group(ops []core.Op, base int) {
 			x.fail("errval:op=Rollback:want=ErrTxClosed", "Rollback on a finished transaction returned %v", err)
 			return
 		}
+		env.Count("errval.ErrTxClosed")
 	}
 	x.db.Reset()
 	if committedNow {
@@ -1407,6 +1411,9 @@ func (x *exec) romut(o core.Op) {
 			if exact && !errors.Is(err, walletdb.ErrTxNotWritable) {
 				x.fail("errval:op="+op+":want=ErrTxNotWritable", "%s in a read-only transaction returned %q", op, err)
 				return false
+			}
+			if exact {
+				x.env.Count("errval.ErrTxNotWritable")
 			}
 			return true
 		}
